@@ -461,8 +461,8 @@ pub fn corrupt_chars(rng: &mut impl Rng, text: &str) -> String {
         }
     }
     // now and then a blank the engine does NOT treat as white space (NBSP, VT, FF, EM SPACE) in place of an ordinary one, and a surplus closer
-    if rng.gen_bool(0.15) {
-        const BLANKS: &[char] = &['\u{A0}', '\u{B}', '\u{C}', '\u{2003}', '\u{85}', '\u{3000}'];
+    if rng.gen_bool(0.2) {
+        const BLANKS: &[char] = &['\u{A0}', '\u{B}', '\u{C}', '\u{2003}', '\u{85}', '\u{3000}', '\u{2020}', '\u{120}', '\u{10A}', '\u{2009}', '\u{200D}', '\u{10D}', '\u{2028}'];
         let spots: Vec<usize> = cs.iter().enumerate().filter(|(_, c)| **c == ' ').map(|(i, _)| i).collect();
         if !spots.is_empty() {
             cs[spots[rng.gen_range(0..spots.len())]] = BLANKS[rng.gen_range(0..BLANKS.len())];
